@@ -54,3 +54,39 @@ for _o in ["plain", "ratio-expand"]:
     _mk_kernel(3, _o, ("quick", "thorough"), 900)
 for _o in ["expand", "pad", "pad-expand", "pad-collapse", "ratio-mixed-expand", "minwidth", "pad-noedge-expand"]:
     _mk_kernel(3, _o, ("thorough",), 3000)
+
+
+# --- composition: real renderable trees, every width from the structural minimum (C+S) ---------------------------------
+from vf import catalogue as cat  # noqa: E402
+
+F_C = ["rich/console.py:Console.render", "rich/console.py:Console.render_lines", "rich/text.py:Text.wrap", "rich/_wrap.py:divide_line",
+       "rich/panel.py:Panel.__rich_console__", "rich/padding.py:Padding.__rich_console__", "rich/align.py:Align.__rich_console__",
+       "rich/constrain.py:Constrain.__rich_console__", "rich/rule.py:Rule.__rich_console__", "rich/bar.py:Bar.__rich_console__",
+       "rich/progress_bar.py:ProgressBar.__rich_console__", "rich/tree.py:Tree.__rich_console__",
+       "rich/columns.py:Columns.__rich_console__", "rich/table.py:Table.__rich_console__", "rich/table.py:Table._render",
+       "rich/segment.py:Segment.split_and_crop_lines"]
+
+
+def _mk_comp(lo, hi, tiers, timeout, wmax):
+    @symx("C01-render-w%d-trees%d-%d" % (wmax, lo, hi), tiers=tiers, timeout=timeout, kind="C+S", functions=F_C,
+          bounds="catalogue trees %s x every available width from the tree's structural minimum to %d x ascii_only/legacy_windows "
+                 "off and on (solver-enumerated, rendered natively through Console.render, not Console.print): no line wider than "
+                 "the available width (reference cell widths)" % (cat.NAMES[lo:hi], wmax),
+          outside="trees outside the catalogue; widths above %d" % wmax)
+    def h(e):
+        i = int(e.mk("tree", lo, hi - 1))
+        name, factory, smin = cat.TREES[i]
+        w = int(e.mk("width", 1, wmax))
+        if w < smin:
+            return True
+        legacy = bool(e.mkbool("legacy_windows"))
+        c = cat.console(legacy_windows=legacy, force_terminal=legacy)
+        lines = cat.render_lines(c, factory(), w)
+        return all(x <= w for x in cat.widths(lines))
+    return h
+
+
+_NT = len(cat.TREES)
+for _lo in range(0, _NT, 6):
+    _mk_comp(_lo, min(_NT, _lo + 6), ("quick",), 900, 60)
+    _mk_comp(_lo, min(_NT, _lo + 6), ("thorough",), 3000, 200)
